@@ -1,33 +1,5 @@
-//! pvharness: runs the real proto-vulcan code on generated cases, canonicalises what each
-//! property observes and evaluates the property with a model-independent oracle.
-//!
-//!   pvharness run <Cxx> <seed> <quick|thorough> <outdir>
-//!   pvharness replay <Cxx> <outdir> < caselines     (one case line per stdin line)
-mod c01;
-mod c02;
-mod c03;
-mod c04;
-mod c05;
-mod c06;
-mod c07;
-mod c08;
-mod c09;
-mod c10;
-mod c16;
-mod c19;
-mod c20;
-mod c21;
-mod c22;
-mod c24;
-mod fdgen;
-mod search;
-mod prog;
-mod tree;
-mod c18;
-mod term;
-mod out;
-mod rng;
-
+//! pvharness binary: see lib.rs
+use pvharness::*;
 use std::io::BufRead;
 
 fn main() {
@@ -37,10 +9,12 @@ fn main() {
         std::process::exit(2);
     }
     // Silence panic messages of caught panics; the harness reports them itself.
+    if args[1] != "genmacro" {
     std::panic::set_hook(Box::new(|info| {
         let loc = info.location().map(|l| format!("{}:{}", l.file(), l.line())).unwrap_or_default();
-        LAST_PANIC.with(|p| *p.borrow_mut() = loc);
+        pvharness::LAST_PANIC.with(|p| *p.borrow_mut() = loc);
     }));
+    }
     match args[1].as_str() {
         "run" => {
             let prop = args[2].as_str();
@@ -73,6 +47,14 @@ fn main() {
                 }
             }
             out.write(dir).expect("write");
+        }
+        "genmacro" => {
+            // pvharness genmacro <C12,C13,..> <seed> <tier> <generated.rs> <macro_cases.txt>
+            let props: Vec<&str> = args[2].split(',').collect();
+            let seed: u64 = args[3].parse().expect("seed");
+            let thorough = args[4] == "thorough";
+            let n = cmacro::generate(&props, seed, thorough, &args[5], &args[6]).expect("write");
+            println!("{} macro cases", n);
         }
         "replay" => {
             let prop = args[2].as_str();
@@ -116,39 +98,3 @@ fn main() {
     }
 }
 
-thread_local! {
-    static MARK: std::cell::RefCell<Option<std::fs::File>> = std::cell::RefCell::new(
-        std::env::var("PVH_MARK").ok().and_then(|p| std::fs::File::create(p).ok()));
-}
-
-/// Records the case about to be run (file named by env PVH_MARK), so that a run that dies with an
-/// abort no `catch_unwind` can intercept (stack overflow on a cyclic term, allocation failure) still
-/// names its input.
-pub fn mark(line: &str) {
-    use std::io::{Seek, SeekFrom, Write};
-    MARK.with(|m| {
-        if let Some(f) = m.borrow_mut().as_mut() {
-            let _ = f.seek(SeekFrom::Start(0));
-            let _ = f.set_len(0);
-            let _ = f.write_all(line.as_bytes());
-        }
-    });
-}
-
-thread_local! {
-    pub static LAST_PANIC: std::cell::RefCell<String> = std::cell::RefCell::new(String::new());
-}
-
-/// Runs `f`, mapping a panic to `Err(site)` where site is `file:line` of the panic.
-pub fn catch<T>(f: impl FnOnce() -> T) -> Result<T, String> {
-    match std::panic::catch_unwind(std::panic::AssertUnwindSafe(f)) {
-        Ok(v) => Ok(v),
-        Err(p) => {
-            if p.downcast_ref::<proto_vulcan::verif::BudgetExhausted>().is_some() {
-                Err("BUDGET".to_string())
-            } else {
-                Err(LAST_PANIC.with(|p| p.borrow().clone()))
-            }
-        }
-    }
-}
